@@ -282,7 +282,8 @@ package node
 // C12 "the condition of if and while must be boolean in every position": whatever the flags, the
 // code emitted for the statement contains the conditional jump that tests (and type-checks) the condition.
 //@ fun isCondJump(i bytecode.Type) bool := bcop(i) == bytecode.JMPF || bcop(i) == bytecode.JMPT
-//@ func (If).byteCode [C05,C12] implements ByteCoder.byteCode
+//@ func (If).byteCode [C05,C12,C09] implements ByteCoder.byteCode
+//@   atcall bytecode.EncodeSrc(1, bytecode.AddrImm, noResultAddr with (callee_srcAddr int) requires[discarded_value_dropped;C09] (discard && !returning && tcInstr.Src0() == bytecode.AddrStck) ==> bcop((*cr.CS)[len(*cr.CS)-1]) == bytecode.POP
 //@   atcall condition(i.Condition with (callee_falsey bool) requires[true_case_follows_the_test;C12,C01] callee_falsey   // the code right after the jump is the true case: the jump must be the one taken when the condition is false
 //@   assumes[unfold] exprOK(i.Condition) && wfAST(i.TrueCase) && (dyntype(i.Condition) == typeid[UnOp]() ==> exprOK(i.Condition.(UnOp).Target))
 //@   ensures[cond_tested;C12,C09] exists k :: old(len(*cr.CS)) <= k && k < len(*cr.CS) && isCondJump((*cr.CS)[k])
@@ -295,6 +296,9 @@ package node
 // sees all of them (CtxLo..CtxHi) so that a return inside nested loops can delete every one.
 //@ pred varRefOK(n ByteCoder) bool := wfAST(n) && (dyntype(n) == typeid[Name]() || dyntype(n) == typeid[Local]())
 //@ func (For).byteCode [C05,C12,C09,C02,C17] implements ByteCoder.byteCode
+//@   atcall bytecode.EncodeSrc(0, bytecode.AddrImm, switchAddr with (callee_srcAddr int) requires[iteration_leaves_one_value_or_none;C09,C02]
+//@       ((discard && body.Src0() == bytecode.AddrStck) ==> bcop((*cr.CS)[len(*cr.CS)-1]) == bytecode.POP)
+//@       && ((!discard && body.Src0() != bytecode.AddrStck && body.Src0() != bytecode.AddrInv) ==> bcop((*cr.CS)[len(*cr.CS)-1]) == bytecode.PUSH)   // C09: the loop's working storage does not grow with the iteration count
 //@   assumes[unfold] len(f.Iterators.Elems) == len(f.VarRefs.Elems) && len(f.Iterators.Elems) >= 1 && wfAST(f.Body)
 //@       && (forall k :: 0 <= k && k < len(f.Iterators.Elems) ==> exprOK(f.Iterators.Elems[k]))
 //@       && (forall k :: 0 <= k && k < len(f.VarRefs.Elems) ==> varRefOK(f.VarRefs.Elems[k]))
@@ -311,7 +315,8 @@ package node
 //@ func (While).byteCode [C05,C12] implements ByteCoder.byteCode
 //@   assumes[unfold] whileOK(w)
 //@   ensures[cond_tested;C12,C09] exists k :: old(len(*cr.CS)) <= k && k < len(*cr.CS) && isCondJump((*cr.CS)[k])
-//@ func discardingWhile [C05,C12]
+//@ func discardingWhile [C05,C12,C09]
+//@   atcall condition(w.Condition #2 with (callee_falsey bool) requires[iteration_value_dropped;C09] body.Src0() == bytecode.AddrStck ==> len(*cr.CS) >= 1 && bcop((*cr.CS)[len(*cr.CS)-1]) == bytecode.POP   // C09: a discarded loop body leaves nothing on the stack when the next iteration starts
 //@   atcall condition(w.Condition #1 with (callee_falsey bool) requires[entry_test_skips_loop_when_false;C12,C01] callee_falsey
 //@   atcall condition(w.Condition #2 with (callee_falsey bool) requires[back_jump_when_true;C12,C01] !callee_falsey
 //@   requires[sel] 0 <= srcsel && srcsel <= 2
